@@ -274,3 +274,73 @@ func RunUntrusted(c UntrustedCase) harn.Result {
 	}
 	return res
 }
+
+// SweepCounts decodes, for the two list-carrying kinds, an input with *every*
+// 16-bit element count followed by a short tail, and checks the allocation bound
+// in batches (bisecting a batch that exceeds the sum of its bounds).  A bound
+// check on the count that wraps around, or that is scaled wrongly, lets a few
+// isolated counts through; only an exhaustive sweep is sure to meet them.
+func SweepCounts(tails []int) (n int, bad []byte, err error) {
+	type in struct{ b []byte }
+	var inputs [][]byte
+	for _, kind := range []uint8{refwire.Twalk, refwire.Rwalk} {
+		hdr := []byte{kind, 0, 0}
+		if kind == refwire.Twalk {
+			hdr = append(hdr, 1, 0, 0, 0, 2, 0, 0, 0) // fid, newfid
+		}
+		for c := 0; c < 65536; c++ {
+			for _, tl := range tails {
+				b := append(append([]byte(nil), hdr...), byte(c), byte(c>>8))
+				for i := 0; i < tl; i++ {
+					b = append(b, 0)
+				}
+				inputs = append(inputs, b)
+			}
+		}
+	}
+	var check func(batch [][]byte) error
+	check = func(batch [][]byte) error {
+		var bound uint64
+		for _, b := range batch {
+			bound += allocBound(len(b))
+		}
+		if len(batch) > 1 {
+			// the constant part of the bound is per call; for a batch use a tighter sum so that one
+			// outlier of a few hundred KiB cannot hide among cheap neighbours
+			bound = 64<<10 + uint64(len(batch))*1024
+		}
+		alloc, pv, stack := measure(func() {
+			for _, b := range batch {
+				var fc p9p.Fcall
+				codec.Unmarshal(b, &fc)
+			}
+		})
+		if pv != nil {
+			return fmt.Errorf("Unmarshal panicked in the count sweep: %v\n%s", pv, trim(stack))
+		}
+		if alloc <= bound {
+			return nil
+		}
+		if len(batch) == 1 {
+			_, e := CheckUntrusted(false, batch[0])
+			if e != nil {
+				bad = batch[0]
+			}
+			return e
+		}
+		if e := check(batch[:len(batch)/2]); e != nil {
+			return e
+		}
+		return check(batch[len(batch)/2:])
+	}
+	for i := 0; i < len(inputs); i += 256 {
+		j := i + 256
+		if j > len(inputs) {
+			j = len(inputs)
+		}
+		if e := check(inputs[i:j]); e != nil {
+			return i, bad, e
+		}
+	}
+	return len(inputs), nil, nil
+}
